@@ -196,8 +196,6 @@ def run_sql(ck):
             ck.report_known("comparison-on-topk", "%s => ... FROM par_b array JOIN par_b.slice as arr_b HAVING ((value) > (1.000000)) (no aggregation in that select)" % c["query"])
         if cls == "label-format-ignored" and c.get("sql") and "Map(String, String)" not in c["sql"][0] and "mapUpdate" not in c["sql"][0] and "label-format-ignored" in known:
             ck.report_known("label-format-ignored", "%s => the SQL neither renames nor adds a label (no mapUpdate(labels, ...)), it groups by mapFilter((k,v) -> k IN ('x'), labels) of the stream labels" % c["query"])
-        if cls == "sub-millisecond-range" and c.get("sql") and "/ 0.001000 as value" in c["sql"][0] and "sub-millisecond-range" in known:
-            ck.report_known("sub-millisecond-range", "%s => toFloat64(COUNT()) / 0.001000 for a range of 0.0015 s" % c["query"])
     # ---- spec oracle 1: the roll-up table only for representable queries
     short_bad = [c for c in allc if c.get("sql") and RE_M15.search(c["sql"][0]) and c.get("m15_spec") is False]
     ck.obligation("spec oracle: the implementation reads metrics_15s only for queries whose every stage is answerable from it (m15_representable)",
@@ -234,12 +232,6 @@ def run_sql(ck):
     # a fragment the function table of the query admits no reading for (function without unwrap stage etc.) is verdict 1
     # only when the reference is defined: spec_eval = None gives 1 as well, so restrict to recognised functions
     real_l = [(o, v) for o, v in bad_l if v in (2, 3)]
-    # recorded finding: the divisor is printed from whole milliseconds, so a range with a sub-millisecond part is judged wrong
-    subms = [(o, v) for o, v in real_l if v == 2 and o["dur"] % 10 ** 6 != 0]
-    if subms and "sub-millisecond-range" in known:
-        real_l = [x for x in real_l if x not in subms]
-        ck.report_known("sub-millisecond-range", "%d generated queries with a range that is not whole milliseconds, e.g. %s => %s" % (
-            len(subms), byid[subms[0][0]["id"]]["query"][:120], subms[0][0]["value"]))
     unk_l = [(o, v) for o, v in bad_l if v == 1 and ((o["unwrapped"] and o["f"] not in ("count_over_time", "bytes_rate", "bytes_over_time", "absent_over_time")) or
                                                      (not o["unwrapped"] and o["f"] in ("rate", "count_over_time", "bytes_rate", "bytes_over_time")))]
     ck.obligation("spec oracle: every range-aggregation fragment of the implementation (%d distinct) evaluates to the reference function on the witness window and divides the timestamp by the range" % cnt[0],
